@@ -138,9 +138,9 @@ fn step_cells(len: usize, len2: usize, ndrv: usize, res: Result<(usize, Option<V
         for a in cur[..nd].iter() { c.push(Cell::Int(num(a))) }
         let mut cb: Vec<i128> = cur[nd..].iter().map(|a| num(a)).collect();
         cb.sort();
-        // a rescan: the callback read more than the element that leaves the window
-        let mut d = cb.clone(); d.dedup();
-        if d.len() > ndrv.max(1) { rescan = true }
+        // a rescan: the callback read at least two different indices (more than the element that leaves the window)
+        let mut d: Vec<i128> = cb.iter().map(|v| v % 1_000_000).collect(); d.sort(); d.dedup();
+        if d.len() > 1 { rescan = true }
         for v in cb { c.push(Cell::Int(v)) }
         if let Some(i) = write { c.push(Cell::Int(-(i as i128) - 1)) }
         if let Some(k) = panic { c.push(Cell::Panic(k)) }
